@@ -25,7 +25,7 @@ binding:   (a) one CASE line per value (every value up to length 5 / 6 over x : 
                negative control).  Walks through the emitted LTS are replayed on live Deb822 / Dsc /
                Changes objects: after EVERY step the outcome, the paragraphs of all live objects
                (atomicity, nothing left behind, no aliasing) and the read-back verdicts.
-sizes:     (notes/SIZE_STRESS.md) the abstract cases stay small; every 8th (quick) / 4th CASE line and
+sizes:     (notes/SIZE_STRESS.md) the abstract cases stay small; every 8th (quick) / 6th CASE line and
            every 3rd walk get a size-stressed concretization -- payload runs at 1..8193 and 64 KiB,
            the first special character at offset 4095/4096/4097, a continuation line repeated
            2..257 / 1000 times, field names of 31..1024 characters, paragraphs of 9..257 / 1000
@@ -364,7 +364,7 @@ def check_case(case, clsname, conc, route="setitem", stats=None):
 
 
 CASE_CHUNK = 1500
-STRESS_EVERY = {"quick": 8, "thorough": 4}
+STRESS_EVERY = {"quick": 8, "thorough": 6}
 
 
 def replay_chunk(payload):
@@ -376,7 +376,7 @@ def replay_chunk(payload):
     rng = random.Random("C08-%s-cases-%d" % (seed, off))
     out = {"n": 0, "stats": {}, "drift": [], "violations": [], "stress": {}}
     stats = {}
-    big_left = 2 if quick else 12                      # 64 KiB values / 1000 lines / 1000 fields per chunk
+    big_left = 2 if quick else 8                      # 64 KiB values / 1000 lines / 1000 fields per chunk
     try:
         for j, c in enumerate(chunk):
             idx = off + j
@@ -898,7 +898,7 @@ def validate(ctx, traces, with_controls=True):
         for t in traces[:3]:
             controls += corrupt(t)
     acc, _, r = core.validate_traces(ctx, "TraceDeb822Value", "TraceDeb822Value.cfg", batch,
-                                     extra_env={"TRACE_DIAG": "0"}, controls=controls, workers=min(8, core.NCPU), java_opts=JAVA_OPTS)
+                                     extra_env={"TRACE_DIAG": "0"}, controls=controls, workers=min(6, core.NCPU), java_opts=JAVA_OPTS)
     if len(batch) not in acc:
         raise core.MachineryError("TraceDeb822Value rejects the literal good trace: trace module broken")
     model_diff = [(v[0], v[1]) for v in r.printed.get("REJECT", []) if isinstance(v, list) and v[0] <= len(traces)]
@@ -986,7 +986,7 @@ def run(ctx):
 
     # 1. (b) code -> spec: assignment histories are recorded first; TLC validates them on the
     #    code points in the background while the bounded configuration runs and is replayed
-    ntr, nev, deep_every = (240, 10, 1) if quick else (4000, 12, 4)
+    ntr, nev, deep_every = (240, 10, 1) if quick else (3500, 12, 4)
     traces = [record_trace(rng, nev) for i in range(ntr)]
     for i, t in enumerate(traces):
         t["deep"] = (i % deep_every == 0)         # reader model evaluated by TLC on these (diagnostic)
@@ -1005,7 +1005,6 @@ def run(ctx):
     # 2. spec-level negative controls, the bounded configuration and the history LTS, side by side
     try:
         with ThreadPoolExecutor(max_workers=4) as ex:
-            f_neg = ex.submit(spec_negative_controls, ctx)
             f_bnd = ex.submit(ctx.tlc_must_hold, "Deb822Value",
                               "MC_Deb822Value_quick.cfg" if quick else "MC_Deb822Value.cfg",
                               workers=workers, want_tags={"CASE"})
@@ -1024,14 +1023,16 @@ def run(ctx):
             if g.init not in g.out or len(g.states) != r_lts.distinct:
                 raise core.MachineryError("history LTS: %d states from EDGE lines, TLC found %d" % (len(g.states), r_lts.distinct))
             hvalues = [v for v in values if tuple(v["v"]) != (120,)] + [v for v in values if tuple(v["v"]) == (120,)]
-            nwalks, wlen, wchunk = (160, 24, 20) if quick else (3000, 40, 100)
+            nwalks, wlen, wchunk = (160, 24, 20) if quick else (2000, 40, 100)
             slim_edges = [{k: e[k] for k in ("from", "op", "args", "res", "to")} for e in g.edges]
             wpay = [(ctx.seed, ctx.tier, off, min(wchunk, nwalks - off), wlen, slim_edges, H_INIT, hvalues)
                     for off in range(0, nwalks, wchunk)]
             a_walks = pool.map_async(walk_chunk, wpay)
-            f_neg.result()
             r_bnd = f_bnd.result()
             r_zone = f_zone.result() if f_zone else None
+        # the (small) negative-control runs go after the big one, next to the replay
+        ex_neg = ThreadPoolExecutor(max_workers=1)
+        f_neg = ex_neg.submit(spec_negative_controls, ctx)
     except BaseException:
         pool.terminate()
         ex_val.shutdown(wait=True)
@@ -1125,8 +1126,10 @@ def run(ctx):
     n_rej = 0
     n_diff = 0
     try:
+        f_neg.result()
         results = f_val.result()
     finally:
+        ex_neg.shutdown(wait=True)
         ex_val.shutdown(wait=True)
     for off, rejected, info, model_diff in results:
         part = traces[off:off + chunk]
